@@ -227,7 +227,8 @@ TEXTS = {'C01': {'claim': 'no stale write-back, no lost flag update, page/crawle
                         'back-ends, decision table of the constructor and of clear on both back-ends.',
          'not_decided': 'equality of answers for every history'},
  'C16': {'claim': 'every node cached across a yield point is refreshed before it is written; traversals keep block numbers and their own node; no '
-                  'request-spanning scratch state; a link target unknown to a suspended query is skipped',
+                  'request-spanning scratch state; a link target unknown to a suspended query is skipped; a resumable request does nothing at creation time and its '
+                  'yield points only yield',
          'explanation': 'R-FRESH with every yield as an invalidation point; traversal stacks hold block numbers, re-read on pop into a per-traversal node; no '
                         'scratch state shared through the index objects; network lookups tolerate pages indexed meanwhile.',
          'not_decided': 'schedule independence of the final state and the qualified-throughout bounds on answers'},
@@ -239,7 +240,7 @@ TEXTS = {'C01': {'claim': 'no stale write-back, no lost flag update, page/crawle
                         'id for all attachable variations; no memo of expansions.',
          'not_decided': 'closure of the expansion (an algebraic law over byte strings)'},
  'C18': {'claim': 'a partial block or a single file is refused with the library error, a pointer is never on disk before its pointee (trie and link store), '
-                  'all writes are whole blocks, a block a cut may have removed is never unpacked unchecked',
+                  'all writes are whole blocks, a block a cut may have removed is never unpacked unchecked, the trie file is truncated before the link store file',
          'explanation': 'Decision table of the constructor (refusals) and of the corruption check, persisted-before-pointed typestate of every pointer store '
                         'in both stores, block geometry, guard facts on every storage.read result, freshness and dirty-written dataflows.',
          'not_decided': 'the behaviour at every cut of every history (crash points are not a syntactic object)'},
@@ -268,7 +269,8 @@ def _dedupe(rules):
     return out
 
 
-GENERIC_TEXT = (' Generic flow rules restricted to the files the property is anchored in: a local bound only inside a loop is bound in the '
+GENERIC_TEXT = (' Generic flow rules restricted to the files the property is anchored in: no generator call is dropped unconsumed, cooperative yield points only yield, '
+                'a local bound only inside a loop is bound in the '
                 'current iteration before use (must-assign dataflow), request LRUs reach the trie only through __encode (taint dataflow), pointer '
                 'accessors treat as NULL only blocks below the first data block of the pointed store; where listed, the persistence primitives '
                 '(refresh/read/write) reach their storage call on every path (must-pass-through).')
